@@ -19,14 +19,6 @@ func on(id string) bool { return !discovery && !discoverIDs[id] }
 
 // excludedValue reports whether value v of property name must not be generated.
 func excludedValue(name string, v val) bool {
-	// F-C08-exch-recursion (process-fatal, kept out even in discovery mode): ex/ch units on a
-	// property that text.NewTextStyle reads back while the unit is being resolved.
-	switch name {
-	case "font-size", "tab-size", "hyphenate-limit-zone":
-		if hasUnit(v, "ex", "ch") {
-			return true
-		}
-	}
 	switch name {
 	case "list-style-image", "list-style":
 		// F-C08-list-style-image-quoted-url: url("x") / url('x') (a function token holding a string) is
@@ -73,19 +65,6 @@ func excludedValue(name string, v val) bool {
 			}
 			if flush() {
 				return true
-			}
-		}
-	}
-	return false
-}
-
-func hasUnit(v val, units ...string) bool {
-	for _, p := range v {
-		if p.K == kUnit {
-			for _, u := range units {
-				if p.T == u {
-					return true
-				}
 			}
 		}
 	}
@@ -149,9 +128,9 @@ func markNoCase(name string, v val) val {
 		case p.K == kKeyword && (p.T == "on" || p.T == "off") && name == "font-feature-settings" && on("feature-onoff-case"):
 			// F-C08-feature-onoff-case: font-feature-settings compares the raw identifier with "on".
 			set(i)
-		case p.K == kUnit && on("unit-case"):
-			// F-C08-unit-case: units are looked up case-sensitively (LENGTHUNITS, AngleUnits,
-			// RESOLUTIONTODPPX, "fr"): `10PX` is rejected.
+		case p.K == kUnit && caseSensitiveUnits[p.T] && on("unit-case"):
+			// F-C08-unit-case: resolution units (RESOLUTIONTODPPX) and "fr" are still looked up
+			// case-sensitively: `96DPI`, `1FR` are rejected (length and angle units were repaired in accd666).
 			set(i)
 		}
 	}
@@ -180,7 +159,9 @@ func excludedReset(short, long string) bool {
 
 // properties whose validator accepts every value (F-C08-invalid-accepted)
 var acceptsAnything = map[string]bool{"bleed-top": true, "bleed-right": true, "bleed-bottom": true, "bleed-left": true, "bleed": true,
-	"color": true, "outline-color": true, "tab-size": true, "transform-origin": true}
+	"tab-size": true, "transform-origin": true}
+
+var caseSensitiveUnits = map[string]bool{"dppx": true, "dpi": true, "dpcm": true, "fr": true}
 
 var acceptsPartialJunk = map[string]bool{"font-feature-settings": true}
 
